@@ -121,6 +121,20 @@ var c13StmtCtx = []struct {
 	{"after return in case body", "switch (c1) { case 1 { return 1; ", " } }", false},
 	{"after return at top level", "return 1; ", "", false},
 	{"before return in if body", "if (c1) { ", " return 1; }", false},
+
+}
+
+// contexts used for `local` only: function definitions (also nested ones) that are
+// complete before the `local` (a fragment that begins with an operator would continue
+// the preceding `}`-terminated expression, which is a different matter)
+var c13LocalCtx = []struct{ name, pre, post string }{
+	{"after a function definition", "function o2(a) { local q; q = a; return q; } ", ""},
+	{"after a nested function definition", "function o1() { function i1() { return 1; } return i1(); } ", ""},
+	{"after a doubly nested function definition", "function o3() { function i3() { function j3() { return 1; } return j3(); } return i3(); } y = o3(); ", " y = 2;"},
+	{"in if body after a nested function definition", "function o4() { function i4() { return 1; } } if (c1) { ", " }"},
+	{"in while body after two nested function definitions", "function o5() { function i5() { return 1; } function k5() { return 2; } } while (c1) { c1 = false; ", " }"},
+	{"after complete constructs", "if (c1) { y = 1; } while (c2) { c2 = false; } foreach e in [1] { y = e; } switch (c1) { default { y = 2; } } ", ""},
+	{"between two function definitions", "function o6() { return 1; } ", " function o7() { local z; return 2; }"},
 }
 
 // expression-level invalid fragments
@@ -223,6 +237,13 @@ func c13(c *ev.Ctx) {
 		if !ctx.fn {
 			cases = append(cases, pcase{fmt.Sprintf("l1/%d", ci), "local outside a function in " + ctx.name, ctx.pre + c13LocalFrag + ctx.post})
 		}
+	}
+	for ci, ctx := range c13LocalCtx {
+		if _, err := eng.New(ctx.pre+"y = 0;"+ctx.post, eng.Options{NoHook: true}); err != nil {
+			c.Inconclusive(fmt.Sprintf("local context %d (%s) is not accepted on its own: %v", ci, ctx.name, err))
+		}
+		cases = append(cases, pcase{fmt.Sprintf("l2/%d", ci), "local outside a function " + ctx.name, ctx.pre + c13LocalFrag + ctx.post})
+		cases = append(cases, pcase{fmt.Sprintf("l3/%d", ci), "local outside a function (in an if) " + ctx.name, ctx.pre + "if (c1) { " + c13LocalFrag + " }" + ctx.post})
 	}
 	for fi, f := range c13ExprFrags {
 		for ei, ectx := range c13ExprCtx {
